@@ -94,7 +94,12 @@ func cmdCheck(args []string) int {
 		}
 	}
 	sort.Strings(work)
-	if len(work) == 0 {
+	var extraObls []*Obligation
+	if id == "C14" {
+		extraObls = eng.checkC14()
+		ev.Level = "other"
+	}
+	if len(work) == 0 && len(extraObls) == 0 {
 		return toolFailure("no contract carries property " + id)
 	}
 	done := map[string]*FuncResult{}
@@ -129,6 +134,7 @@ func cmdCheck(args []string) int {
 	}
 	genTime := time.Since(t0).Seconds()
 	eng.discharge(all, 12)
+	all = append(all, extraObls...)
 
 	// claims
 	claimFile := filepath.Join(*verif, "claims", id+".txt")
@@ -215,6 +221,13 @@ func cmdCheck(args []string) int {
 			continue
 		}
 		// failed or undecided: known finding?
+		if kf := matchKF(kfs, id, o); kf != nil && o.ctx == nil && o.Kind == "typestate" && kf.Guard == "true" {
+			// structural obligation (no solver context): the finding covers the whole obligation
+			nKF++
+			kfLines = append(kfLines, fmt.Sprintf("KNOWN-FINDING: property=%s obligation=%s %s", id, o.Name, kf.What))
+			o.Decided = "known-finding"
+			continue
+		}
 		if kf := matchKF(kfs, id, o); kf != nil && o.ctx != nil {
 			if eng.failsOnlyInsideGuard(o, kf) {
 				nKF++
@@ -269,6 +282,9 @@ func cmdCheck(args []string) int {
 	ev.Coverage["vacuity_checks"] = vacuity
 	ev.Coverage["samples"] = samples
 	ev.Coverage["known_finding_lines"] = kfLines
+	if id == "C14" {
+		ev.Coverage["explanation"] = "reads-frame obligations decided by a def-use walk over the typed AST of every command function that calls TryCache (no SMT): each flag/positional-derived value read after the TryCache call must occur in the encodePayload tuple list, be computed only from such values, or be the input/output path or the no-cache switch. One obligation per (command, value)."
+	}
 	ev.Assumptions = tb
 	ev.Violations = nViol
 	if extra, ok := propNotes[id]; ok {
@@ -322,6 +338,11 @@ func matchKF(kfs []*KnownFinding, prop string, o *Obligation) *KnownFinding {
 	for _, k := range kfs {
 		if k.Obligation == o.Name {
 			return k
+		}
+		if strings.Contains(k.Obligation, "*") {
+			if ok, _ := filepath.Match(k.Obligation, o.Name); ok {
+				return k
+			}
 		}
 	}
 	return nil
